@@ -31,7 +31,7 @@ func cpInstances() []*verifx.FInst {
 		{ID: "a2", Node: "n2", NodeAddr: "10.0.2.1", ServiceID: "web", ServiceName: "svc-a", Addr: "10.0.2.7", Port: 8001,
 			GoodTags: []string{"urlprefix-/a"}, BadTags: []string{"urlprefix-/a", `a"quote`}},
 		{ID: "b1", Node: "n1", NodeAddr: "10.0.1.1", ServiceID: "api", ServiceName: "svc-b", Addr: "10.0.1.1", Port: 8002,
-			GoodTags: []string{"urlprefix-b.com/ proto=https", "urlprefix-/b2 strip=/b2", "urlprefix-:7000 proto=tcp", "urlprefix-/b3"}, BadTags: []string{"urlprefix-/b2 weight=1e999x"}},
+			GoodTags: []string{"urlprefix-b.com/ proto=https", "urlprefix-/b2 strip=/b2", "urlprefix-:7000 proto=tcp", "urlprefix-/b3", "urlprefix-/A"}, BadTags: []string{"urlprefix-/b2 weight=1e999x"}},
 	}
 	if os.Getenv("VERIF_NAMING") == "dotted" {
 		// node names and service ids with dots (FQDN node names are common): "n1" + "x.web" and
@@ -52,7 +52,7 @@ var cpKV = map[string]string{
 }
 
 // prefixes an instance advertises when it is routed, and its destination
-var cpRoutes = map[string][]string{"a1": {"/a"}, "a2": {"/a"}, "b1": {"b.com/", "/b2", ":7000", "/b3"}, "X": {"/x"}}
+var cpRoutes = map[string][]string{"a1": {"/a"}, "a2": {"/a"}, "b1": {"b.com/", "/b2", ":7000", "/b3", "/A"}, "X": {"/x"}}
 var cpDst = map[string]string{"a1": "10.0.1.1:8001", "a2": "10.0.2.7:8001", "b1": "10.0.1.1:8002", "X": "10.9.9.9:9999"}
 
 // the protocol each advertised prefix must be routed with (default http)
